@@ -666,6 +666,7 @@ func ResumeTamper(args []string) {
 	stride := fs.Int("stride", 1, "take every n-th bit flip")
 	budget := fs.Duration("budget", 10*time.Minute, "budget")
 	only := fs.String("only", "", "run only the cases whose kind starts with one of these comma separated prefixes")
+	unreadableIgnored := fs.Bool("unreadable-ignored", false, "C05: metadata that does not load (damaged, cut short, garbage) is ignored - the transfer must still succeed")
 	requireComplete := fs.Bool("require-complete", false, "C03: prior histories an interrupted transfer can leave behind (untouched, torn highest chunk) must end in success on both sides")
 	fs.Parse(args)
 	installHooks()
@@ -759,6 +760,12 @@ func ResumeTamper(args []string) {
 	}
 	// metadata written with another chunk size that happens to give the same number of chunks, non-contiguous bitmap
 	cases = append(cases, tamperCase{Kind: "foreign-chunksize-samecount", Stream: 1, Tail: 1}, tamperCase{Kind: "foreign-chunksize-samecount", Stream: 2, Tail: 0})
+	// the same leftover in the second place the receiver looks (below the root directory, when it runs without one)
+	cases = append(cases, tamperCase{Kind: "foreign-chunksize-samecount-fallback", Stream: 1, Tail: 1}, tamperCase{Kind: "foreign-chunksize-samecount-fallback", Stream: 2, Tail: 0})
+	// only the first chunk is recorded, and it is torn: the chunk to verify is the very chunk the sender would hand out next
+	for _, pos := range []int{0, 5, chunk - 8} {
+		cases = append(cases, tamperCase{Kind: "torn-first-only", Arg2: pos, Stream: 1 + pos%2, Tail: 0}, tamperCase{Kind: "torn-first-only", Arg2: pos, Stream: 2, Tail: 0, Lag: true})
+	}
 	cases = append(cases, tamperCase{Kind: "untouched", Stream: 1, Tail: 1}, tamperCase{Kind: "untouched", Stream: 2, Tail: 0})
 	// plain interrupted state, verification tail re-sent as duplicates, data streams lagging: the duplicates arrive late
 	cases = append(cases, tamperCase{Kind: "untouched", Stream: 2, Tail: 1, Lag: true}, tamperCase{Kind: "untouched", Stream: 1, Tail: 2, Lag: true}, tamperCase{Kind: "untouched", Stream: 3, Tail: 3, Lag: true})
@@ -858,6 +865,30 @@ func ResumeTamper(args []string) {
 				}
 				fsc.Flush()
 			}
+		case "foreign-chunksize-samecount-fallback":
+			os.Remove(sp)
+			fp := transfer.SidecarPath(filepath.Join(out, m.Root), "", transfer.VerifSidecarID(big))
+			fsc, err := transfer.CreateSidecar(fp, big.ID, big.Size, 70)
+			if err == nil {
+				for _, k := range []uint32{0, 1, 2, 5, 7} {
+					fsc.MarkComplete(k)
+				}
+				fsc.Flush()
+			}
+		case "torn-first-only":
+			os.Remove(sp)
+			fsc, err := transfer.CreateSidecar(sp, big.ID, big.Size, chunk)
+			if err == nil {
+				fsc.MarkComplete(0)
+				fsc.Flush()
+			}
+			f, _ := os.OpenFile(dp, os.O_RDWR, 0644)
+			junk := make([]byte, chunk-c.Arg2)
+			for k := range junk {
+				junk[k] = 0xEE
+			}
+			f.WriteAt(junk, int64(c.Arg2))
+			f.Close()
 		case "datafile-deleted":
 			os.Remove(dp)
 		case "datafile-truncated":
@@ -884,6 +915,11 @@ func ResumeTamper(args []string) {
 			if c.Arg != highest {
 				expectRepair = false // only the last chunk recorded as complete is covered by the hash check (C06's statement)
 			}
+		}
+		unreadable := false
+		if strings.HasPrefix(c.Kind, "sidecar-") {
+			_, lerr := transfer.LoadSidecar(sp)
+			unreadable = lerr != nil
 		}
 		// 1. the parser itself
 		func() {
@@ -926,6 +962,10 @@ func ResumeTamper(args []string) {
 		}
 		o, err := xfer.Run(cfg, src, out)
 		extraHook = nil
+		if c.Kind == "foreign-chunksize-samecount-fallback" && len(o.Diffs) == 1 && o.Diffs[0] == "extra:"+m.Root {
+			// (the directory this case itself made to hold the leftover metadata)
+			o.Diffs, o.TreeEqual = nil, true
+		}
 		hmu.Lock()
 		unapplied := 0
 		for k, n := range framed {
@@ -962,7 +1002,11 @@ func ResumeTamper(args []string) {
 			outcomes["identical"]++
 		default:
 			outcomes["failed_loudly"]++
-			legit := c.Kind == "untouched" || c.Kind == "complete-torn-last" || (c.Kind == "torn-chunk" && c.Arg == highest)
+			if *unreadableIgnored && unreadable {
+				res.AddViolation(map[string]any{"property": "C05", "kind": "unreadable_resume_metadata_not_ignored", "case": c.Kind,
+					"sendErr": trunc(o.SendErr), "recvErr": trunc(o.RecvErr)}, replay)
+			}
+			legit := c.Kind == "untouched" || c.Kind == "complete-torn-last" || c.Kind == "torn-first-only" || (c.Kind == "torn-chunk" && c.Arg == highest)
 			if *requireComplete && legit {
 				res.AddViolation(map[string]any{"property": "C03", "kind": "resumed_transfer_between_healthy_peers_failed", "history": c.Kind, "lagging_data_streams": c.Lag,
 					"sendErr": trunc(o.SendErr), "recvErr": trunc(o.RecvErr)}, replay)
